@@ -313,7 +313,9 @@ func (r *templateReconciler) templateObject(
 	}
 
 	if err := yaml.Unmarshal(renderedTemplate, object); err != nil {
-		return fmt.Errorf("unmarshalling yaml of rendered template: %w", err)
+		// A template that does not render into a Kubernetes manifest is a user error just like
+		// a template that does not parse: report it via the Invalid condition instead of retrying.
+		return &TemplateError{Err: fmt.Errorf("unmarshalling yaml of rendered template: %w", err)}
 	}
 	violations, err := r.preflightChecker.Check(ctx, objectTemplate.ClientObject(), object)
 	if err != nil {
